@@ -851,7 +851,13 @@ fn main() {
       res.sample(json!({"scenario": scn.describe(), "events": evs.len(), "history_excerpt": history_json(&evs, 14)}), 3);
     }
     for f in findings {
-      let sig = format!("C07/spmc/{}/broadcast", f.rule);
+      // C04 claims the disconnect clauses of the broadcast channel, C07 everything
+      let c04_rule = matches!(f.rule.as_str(), "premature-disconnected" | "disconnected-before-drained") || f.rule.starts_with("panic-in-");
+      if prop == "C04" && !c04_rule {
+        res.count(&format!("other_property_observations/C07|spmc|{}|broadcast", f.rule), 1);
+        continue;
+      }
+      let sig = format!("{}/spmc/{}/broadcast", if prop == "C04" { "C04" } else { "C07" }, f.rule);
       let witness = json!({"scenario": scn.describe(), "detail": f.detail, "complete": complete,
         "receivers": metas.iter().map(|m| json!({"handle": m.handle, "start": m.start, "thread": m.thread})).collect::<Vec<_>>(),
         "history": history_json(&evs, 600)});
